@@ -1,13 +1,13 @@
 #!/bin/bash
 # false-alarm hunt on the unchanged tree: every check, several seeds, both tiers; prints only non-zero exits
-for seed in 1 2 3 4 5 6 7 8; do
+for seed in ${QSEEDS:-1 2 3 4 5 6 7 8}; do
   for id in C01 C02 C03 C04 C05 C06 C07 C08 C09 C10 C11 C12 C13 C14 C15 C16 C17 C18; do
     out=$(VERIF_SEED=$seed ./check $id quick 2>&1); rc=$?
     echo "seed=$seed $id quick rc=$rc $(echo "$out" | tail -1 | sed 's/.*evaluations/evaluations/')"
     if [ $rc -ne 0 ]; then echo "$out" | grep -v "^KNOWN" | head -20; fi
   done
 done
-for seed in 11 12; do
+for seed in ${TSEEDS:-11 12}; do
   for id in C01 C02 C03 C04 C05 C06 C08 C09 C10 C11 C12 C13 C14 C15 C16 C17 C18 C07; do
     out=$(VERIF_SEED=$seed ./check $id thorough 2>&1); rc=$?
     echo "seed=$seed $id thorough rc=$rc $(echo "$out" | tail -1 | sed 's/.*evaluations/evaluations/')"
